@@ -410,6 +410,17 @@ impl Session {
                     buffer.len()
                 );
                 #[cfg(anytls_verif)]
+                crate::verif::emit(
+                    "rx",
+                    vec![
+                        ("sess", self.id().to_string()),
+                        ("client", (self.is_client as u8).to_string()),
+                        ("cmd", u8::from(frame.cmd).to_string()),
+                        ("sid", frame.stream_id.to_string()),
+                        ("len", frame.data.len().to_string()),
+                    ],
+                );
+                #[cfg(anytls_verif)]
                 crate::verif::point("rl.frame").await;
                 self.handle_frame(frame).await?;
             }
@@ -898,6 +909,17 @@ impl Session {
             buffer.len()
         );
 
+        #[cfg(anytls_verif)]
+        crate::verif::emit(
+            "tx",
+            vec![
+                ("sess", self.id().to_string()),
+                ("client", (self.is_client as u8).to_string()),
+                ("cmd", u8::from(frame_cmd).to_string()),
+                ("sid", frame_stream_id.to_string()),
+                ("len", buffer.len().to_string()),
+            ],
+        );
         #[cfg(anytls_verif)]
         crate::verif::point("wf.encoded").await;
         // Check if buffering
